@@ -312,15 +312,24 @@ func (f *File) enterWriteMode() error {
 			}
 		}
 
-		if !f.flags.Append {
-			// Continue where reads and seeks have left the position
-			if _, err := f.writeBuf.Seek(f.readOffset, io.SeekStart); err != nil {
-				return err
-			}
+		// Continue where reads and seeks have left the position (writes on O_APPEND files move to the end themselves)
+		if _, err := f.writeBuf.Seek(f.readOffset, io.SeekStart); err != nil {
+			return err
 		}
 	}
 
 	return nil
+}
+
+// seekToEndIfAppending implements O_APPEND: every write goes to the end of the file, wherever the cursor is
+func (f *File) seekToEndIfAppending() error {
+	if !f.flags.Append {
+		return nil
+	}
+
+	_, err := f.writeBuf.Seek(0, io.SeekEnd)
+
+	return err
 }
 
 func (f *File) seekWithoutLocking(offset int64, whence int) (int64, error) {
@@ -645,6 +654,10 @@ func (f *File) Write(p []byte) (n int, err error) {
 		return -1, err
 	}
 
+	if err := f.seekToEndIfAppending(); err != nil {
+		return -1, err
+	}
+
 	n, err = f.writeBuf.Write(p)
 	if err != nil {
 		return -1, err
@@ -700,6 +713,10 @@ func (f *File) WriteString(s string) (ret int, err error) {
 	defer f.ioLock.Unlock()
 
 	if err := f.enterWriteMode(); err != nil {
+		return -1, err
+	}
+
+	if err := f.seekToEndIfAppending(); err != nil {
 		return -1, err
 	}
 
